@@ -42,6 +42,9 @@ FIXED = {
  'pf_right2_low': "token N P H Q; right H Q; start s; s: e; e: e P e | e (H | Q) e | N;",
  'pf_two_right': "token N P H Q; right H Q; start s; s: e; e: e H e | e P e | e Q e | N;",
  'pf_prefix_between': "token N P T M; start s; s: e; e: e T e | M e | e P e | N;",
+ 'pf_prefix_levels': "token N T M Q; start s; s: e; e: Q e | e T e | M e | N;",
+ 'pf_prefix_levels_post': "token N X M Q; start s; s: e; e: Q e | e X | M e | N;",
+ 'pf_prefix_after_postfix': "token N X T M; start s; s: e; e: e X | e T e | M e | N;",
  'pf_prefix_loose': "token N P M; start s; s: e; e: e P e | M e | N;",
  'pf_postfix_loose': "token N P X; start s; s: e; e: e P e | e X | N;",
  'pf_postfix_tight': "token N P X; start s; s: e; e: e X | e P e | N;",
@@ -56,7 +59,9 @@ FIXED = {
 def family(seed, count):
     out = []
     for name, txt in FIXED.items():
-        g = parse_simple(txt, name=name); g.meta['family'] = 'pratt'; out.append(g)
+        g = parse_simple(txt, name=name); g.meta['family'] = 'pratt'
+        if len(g.tokens) <= 5: g.meta['bound_delta'] = 1        # small operator alphabets: one token more than the tier's bound
+        out.append(g)
     rng = random.Random(seed * 7 + 11)
     for i in range(count): out.append(family_member(rng, i))
     # symbol twins: operators declared and referenced (also in `right`) by symbol go through the Regex::Symbol / Str arms
